@@ -322,6 +322,7 @@ class RngFlowCheck(PropertyCheck):
 
 class C07(RngFlowCheck):
     pid = "C07"
+    claimed = True
     props_modules = ["KDVerif.Props.C07"]
     design_ref = "DESIGN.md 3 (C07/C08/C09)"
     anchored = ["kappadata/transforms/base/kd_stochastic_transform.py", "kappadata/transforms/base/kd_compose_transform.py",
